@@ -41,6 +41,12 @@ def check(model, tier):
     from ..rules import structure as _structure
 
     _structure.r14_5_noop_identity(ctx)  # an elided operation returns the target itself, in the target's own engine
+    from ..rules import rowseval as _rowseval
+
+    _rowseval.r_sliced_is_window(ctx, "R05.12")
+    from ..rules import dispatch as _dispatch5
+
+    _dispatch5.r_only_deduplication_merges_rows(ctx, "R05.13")  # projection over projection keeps every row of the target  # a merged slice is evaluated by sliced(): its window is that of the rows
     from ..rules.foundation import run_foundation
 
     run_foundation(ctx, "05")
